@@ -240,7 +240,48 @@ Codeword *DecodingTableBuilder::getCodewords() { return codewords; }
 
 uint DecodingTableBuilder::getMax() { return maxv; }
 
+void DecodingTableBuilder::completeTableSubstr() {
+  uint entries = 1 << TABLEBITSO;
+
+  for (uint i = 0; i < entries; i++) {
+    if (tableSubstr[i].special) {
+      // The jumping information is set to the bits really encoding the
+      // substring, so the entry is also valid when its chunk is found in
+      // any other context
+      tableSubstr[i].dbits = 0;
+
+      for (uint j = 0; j < tableSubstr[i].length; j++)
+        tableSubstr[i].dbits += codewords[tableSubstr[i].substr[j]].bits;
+    }
+
+    if (tableSubstr[i].length > MAXSUBSTR) {
+      // The length does not fit in the control byte (16 symbols encoded
+      // with 1 bit), so the last symbol is discarded
+      std::vector<uchar> substr = tableSubstr[i].substr;
+      tableSubstr[i].setSubstr(&substr, MAXSUBSTR, MAXSUBSTR);
+    }
+  }
+
+  // All chunks which are not indexed are decoded as their first symbol
+  std::vector<uchar> substr(1);
+
+  for (uint symbol = 0; symbol < 256; symbol++) {
+    uint bits = codewords[symbol].bits;
+
+    if ((bits > 0) && (bits <= TABLEBITSO)) {
+      uint first = codewords[symbol].codeword << (TABLEBITSO - bits);
+      uint last = first + (1 << (TABLEBITSO - bits));
+      substr[0] = symbol;
+
+      for (uint i = first; i < last; i++)
+        if (tableSubstr[i].dbits == 0)
+          tableSubstr[i].setSubstr(&substr, 1, bits);
+    }
+  }
+}
+
 DecodingTable *DecodingTableBuilder::getTable() {
+  completeTableSubstr();
   table->setDecodingTable(TABLEBITSO, tableSubstr);
   return table;
 }
